@@ -27,7 +27,7 @@ def encPrim : Prim → String
   | .jclose => "jclose" | .junlink => "junlink" | .aopen => "aopen"
   | .awrite d => "awrite#" ++ toString d.length | .aclose => "aclose"
   | .ropen => "ropen" | .rtrunc n => "rtrunc=" ++ toString n | .rclose => "rclose"
-  | .unlink => "unlink"
+  | .unlink => "unlink" | .topen => "topen" | .tclose => "tclose"
 
 def encTrace (t : Trace) : String :=
   if t.isEmpty then "~" else ",".intercalate (t.map fun (p, g) => encPrim p ++ ":" ++ encTag g)
@@ -40,7 +40,84 @@ def zipOuts : List Bytes → List Out → Option (List (Bytes × Out))
   | d :: ds, o :: os => (zipOuts ds os).map ((d, o) :: ·)
   | _, _ => none
 
+def decSched? : List String → Option Sched
+  | [getsize, jopen, jwrite, jretry, jclose, junlink, aopen, adata, aouts, srcFail, aclose, ropen, rtrunc,
+      rclose, unlink] => do
+    let getsize ← decOut? getsize
+    let jopen ← decOut? jopen
+    let jwrite ← decOut? jwrite
+    let jretry ← decOut? jretry
+    let jclose ← decOut? jclose
+    let junlink ← decOut? junlink
+    let aopen ← decOut? aopen
+    let adata ← decLists? adata
+    let aouts ← decOuts? aouts
+    let aclose ← decOut? aclose
+    let ropen ← decOut? ropen
+    let rtrunc ← decOut? rtrunc
+    let rclose ← decOut? rclose
+    let unlink ← decOut? unlink
+    let aw ← zipOuts adata aouts
+    pure { getsize, jopen, jwrite, jretry, jclose, junlink, aopen, awrites := aw,
+           srcFail := srcFail == "T", aclose, ropen, rtrunc, rclose, unlink }
+  | _ => none
+
+def decKind? : String → Option StepKind
+  | "startTrunc" => some .startTrunc
+  | "startKeep" => some .startKeep
+  | "append" => some .append
+  | _ => none
+
+/-- `<kind> <target> <topen> <tclose> <15 schedule tokens>` per step -/
+def decSteps? : Nat → List String → Option (List Step)
+  | 0, [] => some []
+  | 0, _ => none
+  | n + 1, kind :: target :: topen :: tclose :: rest => do
+    let kind ← decKind? kind
+    let target ← decList? target
+    let topen ← decOut? topen
+    let tclose ← decOut? tclose
+    let sched ← decSched? (rest.take 15)
+    let more ← decSteps? n (rest.drop 15)
+    pure ({ kind, target, topen, tclose, sched } :: more)
+  | _, _ => none
+
+/-- `<name> <content>` pairs -/
+def decFiles? : Nat → List String → Option (List (Str × Option Bytes) × List String)
+  | 0, rest => some ([], rest)
+  | n + 1, name :: content :: rest => do
+    let name ← decList? name
+    let content ← decOptBytes? content
+    let (more, rest') ← decFiles? n rest
+    pure ((name, content) :: more, rest')
+  | _, _ => none
+
+def encNTrace (t : NTrace) : String :=
+  if t.isEmpty then "~" else
+    ",".intercalate (t.map fun (f, p, g) => encList f ++ "|" ++ encPrim p ++ ":" ++ encTag g)
+
+def handleLife (toks : List String) : String :=
+  match toks with
+  | pre :: nf :: rest =>
+    match decList? pre, nf.toNat? with
+    | some pre, some nf =>
+      match decFiles? nf rest with
+      | some (files, ns :: rest') =>
+        match ns.toNat? with
+        | some ns =>
+          match decSteps? ns rest' with
+          | some steps =>
+            let r := startLife pre (files.map Prod.fst) (Dir.ofList files) steps
+            encStatus r.st ++ " " ++ encNTrace r.tr ++ " " ++
+              ";".intercalate (files.map fun (n, _) => encList n ++ "=" ++ encOpt (r.dir n))
+          | none => "bad-steps"
+        | none => "bad-arg"
+      | _ => "bad-files"
+    | _, _ => "bad-arg"
+  | _ => "bad-arg"
+
 def handle : List String → String
+  | "life" :: toks => handleLife toks
   | ["run", arch, jour, getsize, jopen, jwrite, jretry, jclose, junlink, aopen, adata, aouts, srcFail,
       aclose, ropen, rtrunc, rclose, unlink] =>
     match decOptBytes? arch, decOptBytes? jour, decOut? getsize, decOut? jopen, decOut? jwrite,
